@@ -1,8 +1,7 @@
 // ---- prelude_object.rs: types of src/object.rs as Verus sees them (R8) ----------------------------
 // `Object` is an opaque 64-bit word; its accessors are *assumed* here with the contracts that Kani proves
 // on the real functions (each `external_body` below names the proving obligation).
-#[derive(PartialEq, Eq, Structural)]
-pub enum Type { Null, Int, Bool, Function, Float, String, Array }
+//@TYPE file=object.rs name=Type attrs="#[derive(PartialEq, Eq, Structural)]"
 
 pub enum Error { TypeError(String), SyntaxError(String), ReferenceError(String), IndexError(String), ArgumentError(String) }
 
